@@ -6,6 +6,15 @@
 #ifndef VF_MAXLINKS
 #define VF_MAXLINKS (1 << 20)
 #endif
+/* link lengths are never negative (_open_seekable2 / _bisect_forward_serialno
+   clamp them).  Only units that add lengths up need it; it is stated for the
+   first four links there (VF_MAXLINKS=4). */
+#ifdef VF_NEED_LEN_NONNEG
+#define VF_LEN1(vf, l) ((vf)->links <= (l) || ((vf)->pcmlengths[2 * (l) + 1] >= 0 && (vf)->pcmlengths[2 * (l) + 1] < (1LL << 60)))
+#define VF_LEN_NONNEG(vf) (VF_LEN1(vf, 0) && VF_LEN1(vf, 1) && VF_LEN1(vf, 2) && VF_LEN1(vf, 3))
+#else
+#define VF_LEN_NONNEG(vf) 1
+#endif
 /* representation invariant of an opened seekable handle (what _open_seekable2
    builds): link tables sized by `links` */
 #define INV_VF_TABLES(vf) ((vf)->links >= 1 && (vf)->links <= VF_MAXLINKS && \
@@ -15,7 +24,7 @@
    FRESH((vf)->serialnos, sizeof(long) * (vf)->links) && \
    FRESH((vf)->vi, sizeof(vorbis_info) * (vf)->links) && \
    FRESH((vf)->vc, sizeof(vorbis_comment) * (vf)->links) && \
-   (vf)->current_link >= 0 && (vf)->current_link < (vf)->links)
+   (vf)->current_link >= 0 && (vf)->current_link < (vf)->links && VF_LEN_NONNEG(vf))
 /* a handle as any sequence of public calls can leave it: seekable with full
    tables, or streaming with one link; pcm_offset may be -1 (unset: the state
    every failed seek leaves) */
@@ -25,12 +34,14 @@
 
 long g_k;   /* ghost link index */
 
+#ifndef VERIF_TOTAL_GHOST
 ogg_int64_t ov_pcm_total(OggVorbis_File *vf, int i)
   __CPROVER_requires(INV_VF(vf))
   __CPROVER_assigns()
   __CPROVER_ensures((vf->ready_state < OPENED || !vf->seekable || i >= vf->links) ==> RV == OV_EINVAL)
   __CPROVER_ensures((vf->ready_state >= OPENED && vf->seekable && i >= 0 && i < vf->links) ==> RV == vf->pcmlengths[i * 2 + 1]);
 
+#endif
 ogg_int64_t ov_raw_total(OggVorbis_File *vf, int i)
   __CPROVER_requires(INV_VF(vf))
   __CPROVER_assigns()
